@@ -21,7 +21,8 @@
 EXTENDS Naturals, Sequences, FiniteSets, TLC
 
 Styles == {"wrapped", "out_bare", "empty", "bare"}
-Rets   == {"none", "one", "two", "three", "gen", "ignored", "fault", "exc"}
+Rets   == {"none", "one", "two", "three", "gen", "ignored", "fault", "exc",
+           "cplx", "ignored_cplx"}     \* one return value of a two-member complex type / Ignored where such a type is declared
 Nil == 0 - 1                         \* None
 Val(i) == 10 * i                      \* the value the caller means for argument i
 Alt(i) == 10 * i + 5                  \* a different value, used to show who wins
@@ -29,23 +30,27 @@ Alt(i) == 10 * i + 5                  \* a different value, used to show who win
 \* how argument i is passed: "pos" positional, "kw" keyword, "both" positional Alt(i) and
 \* keyword Val(i) (keyword must win), "kwnil" positional Val(i) and keyword None (positional
 \* must survive), "absent" not passed at all
-Modes == {"pos", "kw", "both", "kwnil", "absent"}
+\* "kwzero"/"poszero": the FALSY but valid value 0, by keyword / positionally
+Modes == {"pos", "kw", "both", "kwnil", "absent", "kwzero", "poszero"}
 \* positional arguments must form a prefix
-PrefixOk(ms) == \A i \in 1..Len(ms) : ms[i] \in {"pos", "both", "kwnil"} =>
-                   \A j \in 1..(i - 1) : ms[j] \in {"pos", "both", "kwnil"}
+Positional == {"pos", "both", "kwnil", "poszero"}
+PrefixOk(ms) == \A i \in 1..Len(ms) : ms[i] \in Positional =>
+                   \A j \in 1..(i - 1) : ms[j] \in Positional
 Cases ==
   { c \in [style : Styles, ret : Rets, modes : UNION {[1..n -> Modes] : n \in 0..3}] :
       /\ PrefixOk(c.modes)
       /\ (c.style = "empty" => Len(c.modes) = 0)
       /\ (c.style = "bare" => (Len(c.modes) = 2 /\ c.ret \in {"one", "fault", "none"}))   \* one complex argument, passed field-wise
-      /\ (c.style = "out_bare" => c.ret \in {"one", "fault", "exc", "gen"})
+      /\ (c.style = "out_bare" => c.ret \in {"one", "fault", "exc", "gen", "cplx", "ignored_cplx"})
+      /\ (c.ret \in {"cplx", "ignored_cplx"} => Len(c.modes) <= 1)
       /\ (c.ret \in {"two", "three"} => c.style = "wrapped")
       \* pairwise: the richer modes only with the plain outcomes
-      /\ ((\E i \in 1..Len(c.modes) : c.modes[i] \in {"both", "kwnil"}) => c.ret \in {"one", "none"}) }
+      /\ ((\E i \in 1..Len(c.modes) : c.modes[i] \in {"both", "kwnil", "kwzero", "poszero"}) => c.ret \in {"one", "none"}) }
 
 \* NullPack / what the client sends: the value that must reach the function in slot i
 Packed(c) == [i \in 1..Len(c.modes) |->
                 CASE c.modes[i] \in {"pos", "kw", "both", "kwnil"} -> Val(i)
+                  [] c.modes[i] \in {"kwzero", "poszero"} -> 0
                   [] OTHER -> Nil]
 \* the native result both paths must deliver (generators are compared as lists)
 R1 == 7   R2 == 8   R3 == 9
@@ -54,11 +59,14 @@ Result(c) == CASE c.ret = "none"    -> <<"value", <<>>>>
                [] c.ret = "two"     -> <<"value", <<R1, R2>>>>
                [] c.ret = "three"   -> <<"value", <<R1, R2, R3>>>>
                [] c.ret = "gen"     -> <<"value", <<R1, R2>>>>
+               [] c.ret = "cplx"    -> <<"value", <<R1, R2>>>>      \* the members of the returned object
                [] c.ret = "ignored" -> <<"ignored", <<>>>>
+               [] c.ret = "ignored_cplx" -> <<"ignored", <<>>>>
                [] c.ret = "fault"   -> <<"fault", <<"Client", "Custom">>>>
                [] c.ret = "exc"     -> <<"fault", <<"Server">>>>
 \* over the wire an Ignored return is an empty response
-WireResult(c) == IF c.ret = "ignored" THEN <<"value", <<>>>> ELSE Result(c)
+Ign(c) == c.ret \in {"ignored", "ignored_cplx"}
+WireResult(c) == IF Ign(c) THEN <<"value", <<>>>> ELSE Result(c)
 \* a non-Fault exception raised by user code reaches the direct caller as the generic fault as well
 NullResult(c) == Result(c)
 
@@ -68,7 +76,7 @@ ArgsWire(c, o)    == o.wargs = Packed(c)
 ResultDirect(c, o) == o.dres = NullResult(c)
 ResultWire(c, o)   == o.wres = WireResult(c)
 \* the property itself: direct == wire (modulo the documented Ignored rule)
-SameAsWire(c, o)  == IF c.ret = "ignored" THEN o.dres[1] = "ignored" /\ o.wres = <<"value", <<>>>>
+SameAsWire(c, o)  == IF Ign(c) THEN o.dres[1] = "ignored" /\ o.wres = <<"value", <<>>>>
                      ELSE o.dres = o.wres
 OnceEach(c, o)    == o.dcalls = 1 /\ o.wcalls = 1
 ClauseNames == {"ArgsDirect", "ArgsWire", "ResultDirect", "ResultWire", "SameAsWire", "OnceEach"}
@@ -76,5 +84,5 @@ Holds(n, c, o) == CASE n = "ArgsDirect" -> ArgsDirect(c, o) [] n = "ArgsWire" ->
                     [] n = "ResultDirect" -> ResultDirect(c, o) [] n = "ResultWire" -> ResultWire(c, o)
                     [] n = "SameAsWire" -> SameAsWire(c, o) [] n = "OnceEach" -> OnceEach(c, o)
 \* the table's own law: whatever the mode, direct and wire expectations agree
-TableLaw == \A c \in Cases : c.ret # "ignored" => NullResult(c) = WireResult(c)
+TableLaw == \A c \in Cases : ~Ign(c) => NullResult(c) = WireResult(c)
 =============================================================================
